@@ -8,7 +8,7 @@ PROP = 'C15'
 def run_setters(res, seed, tier, with_model=True):
     ns, nc = (36, 30) if tier == 'quick' else (300, 80)
     shapes, lines, meta, dist = gen_setter_workload(seed, ns, nc)
-    key = sha('|'.join([repo_hash(), sha(open(os.path.join(DG, 'src', 'support.rs')).read() + open(os.path.join(V, 'tools', 'gen_derive.py')).read()), str(seed), tier, 'setters']))
+    key = sha('|'.join([repo_hash(), sha(open(os.path.join(DG, 'src', 'support.rs')).read() + open(os.path.join(V, 'tools', 'gen_derive.py')).read() + open(os.path.join(V, 'tools', 'derivecheck.py')).read()), str(seed), tier, 'setters']))
     cdir = os.path.join(WORK, 'derive_cache', key); casefile = os.path.join(cdir, 'cases.txt')
     with lock('derive_setters'):
         if not os.path.exists(os.path.join(cdir, 'impl.txt')):
